@@ -210,3 +210,239 @@ Proof.
 Qed.
 
 End verify.
+
+
+(** ** Extension: Verify on a memory (Verify_x) *)
+Section verify_x.
+Variables (now drift : Z) (tvx_ : hdr -> hdr -> tvx).
+
+Definition tvx_soft (h : heap) (r : tvx) : bool :=
+  match r with
+  | XVerr s _ | XWrapped _ s _ => s
+  | XShared _ c _ => h c
+  | _ => false
+  end.
+Definition tvx_err_id (r : tvx) : option N :=
+  match r with
+  | XPlain e | XVerr _ e | XWrapped _ _ e | XShared _ _ e => Some e
+  | _ => None
+  end.
+Definition tvx_fresh (r : tvx) : Prop := match r with XShared _ _ _ => False | _ => True end.
+
+(** every call of Verify_x is the pure Verify on the shapes as the memory shows them at that moment *)
+Theorem verify_x_refines h t u :
+  tvx_ t u <> XTypedNil \/ verify_mand now drift t u <> None ->
+  forall tvp : hdr -> hdr -> tvres,
+  (forall r, tvx_pure h (tvx_ t u) = Some r -> tvp t u = r) ->
+  xres_pure (fst (Verify_x now drift tvx_ h t u)) = Some (Verify now drift tvp t u).
+Proof.
+  intros Hnn tvp Htv. unfold Verify_x, Verify.
+  destruct (verify_mand now drift t u) as [s|]; [reflexivity|].
+  destruct Hnn as [Hnn|Hnn]; [|congruence].
+  destruct (tvx_ t u) as [|e|s e|w s e| |w c e]; cbn in Htv |- *.
+  - rewrite (Htv _ eq_refl). reflexivity.
+  - rewrite (Htv _ eq_refl). reflexivity.
+  - rewrite (Htv _ eq_refl). reflexivity.
+  - rewrite (Htv _ eq_refl). reflexivity.
+  - congruence.
+  - destruct w; rewrite (Htv _ eq_refl); destruct (adjacent t u); cbn;
+      rewrite ?Bool.orb_false_r, ?Bool.orb_true_r; reflexivity.
+Qed.
+
+Theorem x_accept_iff h t u :
+  fst (Verify_x now drift tvx_ h t u) = XNil <-> (mand_ok now drift t u /\ tvx_ t u = XOk).
+Proof.
+  unfold Verify_x. destruct (verify_mand now drift t u) eqn:Hm.
+  - split; [discriminate|]. intros [Hok _]. apply verify_mand_none_iff in Hok. congruence.
+  - apply verify_mand_none_iff in Hm.
+    destruct (tvx_ t u); cbn; try destruct (adjacent t u); cbn;
+      split; try discriminate; try (intros [_ ?]; discriminate); auto.
+Qed.
+
+(** SoftFailure, with the type's own report read from the memory AT THE TIME OF THE CALL *)
+Theorem x_soft_iff h t u r s via :
+  fst (Verify_x now drift tvx_ h t u) = XErr r s via ->
+  (s = true <->
+   mand_ok now drift t u /\ tvx_ t u <> XOk /\ (adjacent t u = false \/ tvx_soft h (tvx_ t u) = true)).
+Proof.
+  unfold Verify_x. destruct (verify_mand now drift t u) eqn:Hm.
+  - intros [= <- <- <-]. split; [discriminate|].
+    intros (Hok&_). apply verify_mand_none_iff in Hok. congruence.
+  - apply verify_mand_none_iff in Hm.
+    destruct (tvx_ t u) eqn:Htv; cbn; try discriminate;
+      destruct (adjacent t u); cbn; try discriminate; intros [= <- <- <-]; cbn;
+      try destruct soft; cbn;
+      (split; [intros Hs; try discriminate Hs; (split; [exact Hm | split; [discriminate | auto]])
+              | intros (_&_&[Hx|Hx]); try reflexivity; try discriminate Hx; auto]).
+Qed.
+
+(** the result never carries the wrapper: errors.As hands out the inner *VerifyError *)
+Theorem x_wrapper_dropped h t u r s via :
+  fst (Verify_x now drift tvx_ h t u) = XErr r s via -> via = None.
+Proof.
+  unfold Verify_x. destruct (verify_mand now drift t u); [intros [= <- <- <-]; reflexivity|].
+  destruct (tvx_ t u); cbn; try discriminate; destruct (adjacent t u); cbn; try discriminate;
+    intros [= <- <- <-]; reflexivity.
+Qed.
+
+(** ... and its reason is the inner type error *)
+Theorem x_reject_reason h t u r s via :
+  fst (Verify_x now drift tvx_ h t u) = XErr r s via ->
+  (exists sn, r = RSent sn /\ s = false /\ sentinel_matches now drift sn t u) \/
+  (exists id, r = RType id /\ mand_ok now drift t u /\ tvx_err_id (tvx_ t u) = Some id).
+Proof.
+  unfold Verify_x. destruct (verify_mand now drift t u) eqn:Hm.
+  - intros [= <- <- <-]. left. eexists; repeat split; eauto using verify_mand_some.
+  - apply verify_mand_none_iff in Hm.
+    destruct (tvx_ t u); cbn; try discriminate; destruct (adjacent t u); cbn; try discriminate;
+      intros [= <- <- <-]; right; eexists; cbn; eauto.
+Qed.
+
+(** the typed nil: a crash for a non-adjacent header, the nil pointer as the (non-nil) error otherwise *)
+Theorem x_panic_iff h t u :
+  fst (Verify_x now drift tvx_ h t u) = XPanic <->
+  (mand_ok now drift t u /\ tvx_ t u = XTypedNil /\ adjacent t u = false).
+Proof.
+  unfold Verify_x. destruct (verify_mand now drift t u) eqn:Hm.
+  - split; [discriminate|]. intros [Hok _]. apply verify_mand_none_iff in Hok. congruence.
+  - apply verify_mand_none_iff in Hm.
+    destruct (tvx_ t u); cbn; destruct (adjacent t u); cbn;
+      split; try discriminate; try (intros (_&?&?); discriminate); auto.
+Qed.
+
+Theorem x_nilptr_iff h t u :
+  fst (Verify_x now drift tvx_ h t u) = XNilPtr <->
+  (mand_ok now drift t u /\ tvx_ t u = XTypedNil /\ adjacent t u = true).
+Proof.
+  unfold Verify_x. destruct (verify_mand now drift t u) eqn:Hm.
+  - split; [discriminate|]. intros [Hok _]. apply verify_mand_none_iff in Hok. congruence.
+  - apply verify_mand_none_iff in Hm.
+    destruct (tvx_ t u); cbn; destruct (adjacent t u); cbn;
+      split; try discriminate; try (intros (_&?&?); discriminate); auto.
+Qed.
+
+(** no call writes the memory (/repo dd31b07: the soft result of a non-adjacent failure is a copy) *)
+Theorem x_no_write h t u : snd (Verify_x now drift tvx_ h t u) = h.
+Proof.
+  unfold Verify_x. destruct (verify_mand now drift t u); [reflexivity|].
+  destruct (tvx_ t u); cbn; try reflexivity; destruct (adjacent t u); reflexivity.
+Qed.
+
+End verify_x.
+
+(** any sequence of calls, any verifier (fresh or kept instances, typed nil included): the memory
+    at the end is the memory at the start, and every call answers as if it were the only one *)
+Theorem seq_no_write drift tv calls : forall h,
+  snd (Verify_seq drift tv h calls) = h /\
+  fst (Verify_seq drift tv h calls)
+    = map (fun c => fst (Verify_x (fst (fst c)) drift tv h (snd (fst c)) (snd c))) calls.
+Proof.
+  induction calls as [|[[now t] u] r IH]; intros h; cbn; [auto|].
+  pose proof (x_no_write now drift tv h t u) as H2.
+  destruct (Verify_x now drift tv h t u) as [x h1]; cbn in H2. subst h1.
+  destruct (IH h) as [IH1 IH2]. destruct (Verify_seq drift tv h r) as [xs h2]; cbn in *.
+  split; [exact IH1 | f_equal; exact IH2].
+Qed.
+
+(** ... and, the typed nil apart, every call is the pure Verify on the shapes as the TYPE made them
+    ([h]: what the type put into its kept instances) - the theorems of Props/C01.v, C01_soft_iff
+    included, hold call by call for kept instances as well *)
+Theorem seq_pure drift (tv : hdr -> hdr -> tvx) (tvp : hdr -> hdr -> tvres) (h : heap) calls :
+  (forall t u, tv t u <> XTypedNil) ->
+  (forall t u r, tvx_pure h (tv t u) = Some r -> tvp t u = r) ->
+  map xres_pure (fst (Verify_seq drift tv h calls))
+    = map (fun c => Some (Verify (fst (fst c)) drift tvp (snd (fst c)) (snd c))) calls
+  /\ snd (Verify_seq drift tv h calls) = h.
+Proof.
+  intros Hf Hp. destruct (seq_no_write drift tv calls h) as [H1 H2]. split; [|exact H1].
+  rewrite H2, map_map. apply map_ext. intros [[now t] u]; cbn.
+  apply verify_x_refines; [left; apply Hf | apply Hp].
+Qed.
+
+(** SoftFailure of the k-th result of a sequence: exactly when that header is non-adjacent or the
+    TYPE reported soft - whatever was verified before, kept instance or not *)
+Theorem seq_soft_iff drift tv h calls k now t u r s via :
+  nth_error calls k = Some (now, t, u) ->
+  nth_error (fst (Verify_seq drift tv h calls)) k = Some (XErr r s via) ->
+  (s = true <->
+   mand_ok now drift t u /\ tv t u <> XOk /\ (adjacent t u = false \/ tvx_soft h (tv t u) = true)).
+Proof.
+  intros Hc Hr. destruct (seq_no_write drift tv calls h) as [_ H2]. rewrite H2 in Hr.
+  rewrite nth_error_map, Hc in Hr. cbn in Hr. injection Hr as Hr.
+  eapply x_soft_iff; exact Hr.
+Qed.
+
+(** ** VerifyRange: what the ROLLING trusted header gives *)
+Section range_more.
+Variables (now drift : Z) (tv : hdr -> hdr -> tvres).
+
+Fixpoint times_from (t : hdr) (l : list hdr) : Prop :=
+  match l with [] => True | u :: r => (h_time t <= h_time u)%Z /\ times_from u r end.
+Fixpoint heights_from (t : hdr) (l : list hdr) : Prop :=
+  match l with [] => True | u :: r => h_height t < h_height u /\ heights_from u r end.
+
+Lemma chain_verified_times t l : chain_verified now drift tv t l -> times_from t l /\ heights_from t l.
+Proof.
+  revert t. induction l as [|u r IH]; intros t; cbn; [auto|].
+  intros [Hv Hc]. apply accept_iff in Hv. destruct Hv as [(_&_&_&Hh&Ht&_) _].
+  destruct (IH u Hc). auto.
+Qed.
+
+Theorem range_times_heights t l :
+  times_from t (fst (VerifyRange now drift tv t l)) /\ heights_from t (fst (VerifyRange now drift tv t l)).
+Proof. apply chain_verified_times, range_each_verified. Qed.
+
+(** all returned headers lie in the time window [trusted.T, now+drift] and on the trusted chain *)
+Lemma chain_verified_all t l u : chain_verified now drift tv t l -> In u l ->
+  h_nil u = false /\ h_chain u = h_chain t /\ h_height t < h_height u /\
+  (h_time t <= h_time u <= now + drift)%Z.
+Proof.
+  revert t. induction l as [|a r IH]; intros t; cbn; [tauto|].
+  intros [Hv Hc] [<-|Hin].
+  - apply accept_iff in Hv. destruct Hv as [(_&?&?&?&?&?) _]. auto.
+  - apply accept_iff in Hv. destruct Hv as [(_&?&Hch&Hh&Ht&?) _].
+    destruct (IH a Hc Hin) as (?&Hch'&?&?&?). repeat split; auto; try lia; try congruence.
+Qed.
+
+Theorem range_all_in_window t l u : In u (fst (VerifyRange now drift tv t l)) ->
+  h_nil u = false /\ h_chain u = h_chain t /\ h_height t < h_height u /\
+  (h_time t <= h_time u <= now + drift)%Z.
+Proof. apply chain_verified_all, range_each_verified. Qed.
+
+End range_more.
+
+(** under the link policy the returned range is hash-linked from its second element on,
+    and to the trusted header as well when its first element is adjacent to it *)
+Fixpoint linked_from (t : hdr) (l : list hdr) : Prop :=
+  match l with [] => True | u :: r => h_prev u = h_id t /\ linked_from u r end.
+
+Lemma link_adjacent_ok trust now drift t u :
+  Verify now drift (vlink_tv trust) t u = None -> wrap64 (h_height t + 1) = h_height u -> h_prev u = h_id t.
+Proof.
+  intros Hv Ha. apply accept_iff in Hv. destruct Hv as [_ Hl]. unfold vlink_tv in Hl.
+  rewrite <- Ha, N.eqb_refl in Hl. destruct (N.eqb_spec (h_prev u) (h_id t)); [assumption|discriminate].
+Qed.
+
+Lemma linked_tail trust now drift t l :
+  chain_verified now drift (vlink_tv trust) t l -> consecutive l ->
+  match l with [] => True | a :: r => linked_from a r end.
+Proof.
+  destruct l as [|a r]; [auto|]. revert t a. induction r as [|b r IH]; intros t a; cbn; [auto|].
+  intros (Ha & Hb & Hc) [Hadj Hcons]. split.
+  - eapply link_adjacent_ok; eauto.
+  - apply (IH a b); cbn; auto.
+Qed.
+
+Theorem range_link_policy trust now drift t l :
+  let v := fst (VerifyRange now drift (vlink_tv trust) t l) in
+  match v with
+  | [] => True
+  | a :: r => linked_from a r /\ (wrap64 (h_height t + 1) = h_height a -> h_prev a = h_id t)
+  end.
+Proof.
+  intros v. pose proof (range_each_verified now drift (vlink_tv trust) t l) as Hc.
+  pose proof (range_consecutive now drift (vlink_tv trust) t l) as Hs. fold v in Hc, Hs.
+  destruct v as [|a r] eqn:Hv; [exact I|]. split.
+  - apply (linked_tail trust now drift t (a :: r)); assumption.
+  - destruct Hc as [Ha _]. intros Hadj. eapply link_adjacent_ok; eauto.
+Qed.
